@@ -169,6 +169,21 @@ def run(ctx):
         else:
             why = 'reads ' + e if not from_copy else ('not reached from the swapped branch' if not from_swapped else 'inside the swapped branch only')
             r.fail('checksum dispatch', func=f.name, sig='dispatch ' + why, loc=t.loc, msg=f'checksum type dispatch {why}')
+    # the stored checksum compared with the computed one is the (swapped) copy's chksum[0]
+    crc_calls = {i.res for i in f.insts() if i.op == 'call' and i.callee in ('@crc32', '@liberasurecode_crc32_alt')}
+    crc_vals = set(crc_calls)
+    for i in f.insts():
+        if i.res and i.op in ('trunc', 'zext', 'sext') and i.ops[0] in crc_vals:
+            crc_vals.add(i.res)
+    for i in f.insts():
+        if i.op == 'icmp' and any(o in crc_vals for o in i.ops):
+            other = [o for o in i.ops if o not in crc_vals][0]
+            e = C.val(strip_int_casts(f, other))
+            if e == '*arg1.chksum[0]':
+                r.ok(f'checksum comparison at line {i.line} uses the returned copy\'s chksum[0]', func=f.name, loc=i.loc)
+            else:
+                r.fail('stored checksum source', func=f.name, sig=f'stored checksum read from {e[:50]}', loc=i.loc,
+                       msg=f'the payload CRC is compared with {e}: for an opposite-endian fragment only the returned copy holds the byte-swapped checksum')
     crcs = [i for i in f.insts() if i.op == 'call' and i.callee in ('@crc32', '@liberasurecode_crc32_alt')]
     for c in crcs:
         ln = strip_ext(strip_trunc32(strip_ext(C.val(c.ops[2]))))
@@ -177,3 +192,66 @@ def run(ctx):
         else:
             r.fail(f'{c.callee} input', func=f.name, sig=f'{c.callee} length {ln}', loc=c.loc, msg=f'payload CRC length is {ln} / not reached from the swapped branch')
     r.require_min(3)
+
+    # ---- R11d the byte-swap primitives themselves
+    r = ctx.rule('R11d', 'byte-swap primitives used for opposite-endian fragments are exact byte reversals (decided on the 2^0..2^(N-1) basis of the loop-free expression)',
+                 'a fallback bswap that sign-extends or drops a byte changes lengths >= 0x80 in some byte')
+    from .. import symex
+    used = sorted({i.callee for i in f.insts() if i.op == 'call' and i.callee in BSWAP} |
+                  {i.callee for i in P.fn('is_invalid_fragment_header').insts() if i.op == 'call' and i.callee in BSWAP})
+    for name in used:
+        n = BSWAP[name]
+        if name.startswith('@llvm.bswap'):
+            r.ok(f'{name}: compiler intrinsic', func=name)
+            continue
+        g = P.fns.get(name)
+        if g is None:
+            r.undecided(f'{name}', msg='byte-swap primitive is external and not an intrinsic')
+            continue
+        rets = [i for i in g.insts() if i.op == 'ret']
+        t = symex.tree(g, rets[0].ops[0])
+        alts = symex.alternatives(t)
+        lv = set()
+        for a in alts:
+            lv |= symex.leaves(a)
+        if len(alts) != 1 or lv - {('p', 0)}:
+            # not a loop-free pure expression of the argument: try recursion through helper calls of the same family
+            # not loop-free: constant-propagate each basis vector through the function (local scalar memory only)
+            from ..consteval import ConstEval, Undecidable
+            CE = ConstEval(P, g.mod)
+            bad = None
+            try:
+                for x in [1 << b for b in range(n)] + [0, (1 << n) - 1]:
+                    res = CE.run(g, [x if x < (1 << (n - 1)) else x - (1 << n)])
+                    got = res['ret']
+                    if not isinstance(got, int):
+                        raise Undecidable('non-constant result')
+                    got &= (1 << n) - 1
+                    want = int.from_bytes(x.to_bytes(n // 8, 'little'), 'big')
+                    if got != want:
+                        bad = (x, got, want); break
+            except Undecidable as e:
+                r.undecided(f'{name}: shape', loc=rets[0].loc, msg=f'the primitive cannot be constant-propagated ({e})')
+                continue
+            if bad:
+                r.fail(f'{name}: byte reversal', func=name, sig=f'bswap{n}({bad[0]:#x}) = {bad[1]:#x}', loc=rets[0].loc,
+                       msg=f'{name}({bad[0]:#x}) yields {bad[1]:#x}, a byte reversal gives {bad[2]:#x}')
+            else:
+                r.ok(f'{name}: exact on all {n} single-bit inputs, 0 and ~0 (constant propagation through its loop)', func=name, loc=rets[0].loc)
+            continue
+        bad = None
+        for bit in range(n):
+            x = 1 << bit
+            want = int.from_bytes(x.to_bytes(n // 8, 'little'), 'big')
+            got = symex.evaluate(alts[0], {('p', 0): x}) & ((1 << n) - 1)
+            if got != want:
+                bad = (x, got, want); break
+        z = symex.evaluate(alts[0], {('p', 0): 0})
+        allone = symex.evaluate(alts[0], {('p', 0): (1 << n) - 1}) & ((1 << n) - 1)
+        if bad:
+            r.fail(f'{name}: byte reversal', func=name, sig=f'bswap{n}({bad[0]:#x}) = {bad[1]:#x}', loc=rets[0].loc, msg=f'{name}({bad[0]:#x}) yields {bad[1]:#x}, a byte reversal gives {bad[2]:#x}')
+        elif z != 0 or allone != (1 << n) - 1:
+            r.fail(f'{name}: byte reversal', func=name, sig=f'bswap{n} not linear', loc=rets[0].loc, msg='the primitive maps 0 or ~0 wrongly')
+        else:
+            r.ok(f'{name}: exact on all {n} basis bits, 0 and ~0 (mask/shift/or expression, bitwise linear)', func=name, loc=rets[0].loc)
+    r.require_min(2)
